@@ -333,20 +333,54 @@ def r3_memory(ctx):
              'reaches the construction of an Err result (except the propagation of the mutating helper\'s own failure); '
              '(c) create/change_id insert only after the freshness test / after _delete; (d) is_stale and delete_expired compare '
              '`deadline <= now` in the same direction.')
-    # (a) raw sites
+    # (a) raw sites. The map is reached through *guarded accessors*: the store's own helper functions that look a record up (get / get_mut /
+    # remove) — whatever they are called and whatever they take (`&mut self`, the guard, the map). They are discovered, not named.
+    HM = 'std::collections::hash::map::HashMap::'
+    LOOKUPS = ('get', 'get_mut', 'remove', 'get_key_value', 'remove_entry', 'contains_key', 'entry')
+    is_backend = lambda x: BACKEND in x.nroot
+    accessors = {}
+    for b in ctx.fb.bodies(MS):
+        if b.is_promoted or is_backend(b):
+            continue
+        if any((callee(t) or '').startswith(HM) and callee(t).split('::')[-1] in LOOKUPS and 'mo' not in t for _, t in b.calls()):
+            accessors.setdefault(b.nroot, []).append(b)
+    # the staleness predicate(s): functions of the crate that return bool and (with their helpers) compare a Timestamp
+    from ..callgraph import CallGraph
+    g_ms = CallGraph(ctx.fb, [(MS, 'Rlib')])
+    def fam_of(root):
+        seen, work = {root}, [root]
+        while work:
+            for c in g_ms.edges.get(work.pop(), ()):
+                if c in g_ms.items and c not in seen:
+                    seen.add(c)
+                    work.append(c)
+        return seen
+    cmp_fns = {b.nroot for b in ctx.fb.bodies(MS) if not b.is_promoted and not is_backend(b)
+               and any((callee(t) or '').startswith('core::cmp::PartialOrd::') and t['aty'] and 'Timestamp' in t['aty'][0] for _, t in b.calls())}
+    stale_preds = {b.nroot for b in ctx.fb.bodies(MS) if not b.is_promoted and b.nid == b.nroot and not is_backend(b) and b.locals[0] == 'bool'
+                   and not (fam_of(b.nroot) & set(accessors)) and (fam_of(b.nroot) & cmp_fns)}
+    ctx.need('C13.R3', 'staleness predicate of the in-memory store (a bool function that compares a Timestamp)', stale_preds)
     n_raw = 0
     for b in ctx.fb.bodies(MS):
         if b.is_promoted:
             continue
         for bb, t in b.calls():
             c = callee(t) or ''
-            if c.startswith('std::collections::hash::map::HashMap::') and 'mo' not in t:
+            if c.startswith(HM) and 'mo' not in t:
                 n_raw += 1
                 meth = c.split('::')[-1]
-                hit = [k for k in RAW_ALLOWED if b.nroot.endswith(k[0]) and k[1] == meth]
-                ctx.ob('C13.R3', 'raw-map-site|%s|%s' % (b.nroot.split('::')[-1].replace('>', ''), meth), bool(hit), b.loc(bb, t),
-                       'HashMap::%s in %s: %s' % (meth, b.nroot, RAW_ALLOWED[hit[0]] if hit else
-                                                   'NOT an enumerated access site (new unguarded access to the session map)'))
+                m_ = next((m for m in METHODS if b.nroot.endswith('>::' + m)), None)
+                why = None
+                if b.nroot in accessors and meth in LOOKUPS:
+                    why = 'guarded accessor (evaluated below for present/absent x stale/fresh)'
+                elif m_ in ('create', 'change_id') and meth == 'insert':
+                    why = 'insert after the guards (checked below)'
+                elif m_ == 'delete_expired' and meth in ('iter', 'remove', 'retain', 'keys', 'len', 'extract_if', 'iter_mut'):
+                    why = 'the expiry scan, with its own `deadline <= now` test'
+                elif meth in ('new', 'with_capacity', 'default') and not is_backend(b):
+                    why = 'constructor'
+                ctx.ob('C13.R3', 'raw-map-site|%s|%s' % (b.nroot.split('::')[-1].replace('>', ''), meth), why is not None, b.loc(bb, t),
+                       'HashMap::%s in %s: %s' % (meth, b.nroot, why or 'NOT inside a guarded accessor (a new unguarded access to the session map)'))
     ctx.floor('C13.R3', 'raw HashMap access sites in the in-memory store', n_raw, 6)
     from ..absint_std import StdSem, TagInterp
 
@@ -360,43 +394,60 @@ def r3_memory(ctx):
         def domain_call(self, interp, path, body, bb, term, short):
             d = term.get('dest')
             dk = (body.id, d['l']) if d is not None and not d.get('p') else None
-            if short.startswith('std::collections::hash::map::HashMap::') and short.split('::')[-1] in ('get', 'get_mut', 'remove') and dk is not None:
+            if short.startswith(HM) and short.split('::')[-1] in ('get', 'get_mut', 'remove') and dk is not None:
                 path.alias.pop(dk, None)
                 path.memo.pop(dk, None)
                 path.tags[dk] = 'opt:Some' if self.present else 'opt:None'
                 return [('next', path)]
-            if short == 'pavex_session_memory_store::StoreRecord::is_stale' and dk is not None:
+            if short.startswith(HM) and short.split('::')[-1] == 'contains_key' and dk is not None:
+                path.alias.pop(dk, None)
+                path.tags.pop(dk, None)
+                path.memo[dk] = self.present
+                return [('next', path)]
+            if short in stale_preds and dk is not None:
                 path.alias.pop(dk, None)
                 path.tags.pop(dk, None)
                 path.memo[dk] = self.stale
                 return [('next', path)]
             return None
 
-    for fn in ('get_mut_if_fresh', '_delete'):
-        b = ctx.need('C13.R3', 'InMemorySessionStore::' + fn, ctx.fb.body(MS, 'pavex_session_memory_store::InMemorySessionStore::' + fn))
-        if b is None:
+    for fn in sorted(accessors):
+        b = next((x for x in accessors[fn] if x.nid == x.nroot), None)
+        if b is None or b.locals[0] == '()':
             continue
+        short_fn = fn.split('::')[-1]
         good = True
         detail = []
         for present in (True, False):
             for stale in (True, False):
                 sem = _AccessorSem(ctx.fb, present, stale)
                 outs = TagInterp(sem).run(b, {})
-                got = sorted({str(p.tags.get((b.id, 0))) if oc == 'return' else 'panic' for oc, p, *_ in outs})
-                want = 'res:Ok' if (present and not stale) else 'res:Err'
-                if not present:
-                    # is_stale is not evaluated on an absent record: both `stale` cases must agree
-                    pass
-                if got != [want]:
+                got = set()
+                for oc, p_, *_ in outs:
+                    if oc != 'return':
+                        got.add('panic')
+                        continue
+                    tg = p_.tags.get((b.id, 0))
+                    if tg is None and b.locals[0] == 'bool':
+                        v, _, _ = TagInterp(sem).bool_value(p_, b, 0)
+                        tg = {True: 'yes', False: 'no'}.get(v)
+                    got.add({'res:Ok': 'yes', 'opt:Some': 'yes', 'res:Err': 'no', 'opt:None': 'no'}.get(tg, str(tg)))
+                want = 'yes' if (present and not stale) else 'no'
+                if sorted(got) != [want]:
                     good = False
-                detail.append('%s/%s->%s' % ('present' if present else 'absent', 'stale' if stale else 'fresh', ','.join(g.replace('res:', '') for g in got)))
-        ctx.ob('C13.R3', 'guarded-accessor|%s' % fn, good, b.loc(),
-               'evaluated for record present/absent x stale/fresh (Option/Result algebra, closures included): Ok exactly when present and fresh [%s]' % ' '.join(detail))
+                detail.append('%s/%s->%s' % ('present' if present else 'absent', 'stale' if stale else 'fresh', ','.join(sorted(got))))
+        ctx.ob('C13.R3', 'guarded-accessor|%s' % short_fn, good, b.loc(),
+               'evaluated for record present/absent x stale/fresh (Option/Result algebra, closures included): a record is handed out / reported exactly when present and fresh [%s]' % ' '.join(detail))
+    ctx.floor('C13.R3', 'guarded accessors of the in-memory store', len(accessors), 2)
+    reaches_lookup = {f for f in g_ms.items if fam_of(f) & {a for a, bs in accessors.items() if any((callee(t) or '').split('::')[-1] in ('get', 'get_mut', 'contains_key') and (callee(t) or '').startswith(HM) for x in bs for _, t in x.calls())}}
+    reaches_take = {f for f in g_ms.items if fam_of(f) & {a for a, bs in accessors.items() if any((callee(t) or '') == HM + 'remove' for x in bs for _, t in x.calls())}}
     # (b) fail-atomic + (c) ordering
     for m in METHODS:
         bodies = impl_method_bodies(ctx, MS, 'pavex_session_memory_store::InMemorySessionStore', m)
-        inner = [b for b in bodies if any(callee(t) == 'tokio::sync::mutex::Mutex::lock' for _, t in b.calls())]
-        if not inner:
+        # the body that does the work: the one that takes the lock, or (when the lock is taken by a helper) the one that touches the map / its accessors
+        inner = [b for b in bodies if BACKEND in b.nroot and any(callee(t) == 'tokio::sync::mutex::Mutex::lock' for _, t in b.calls())] or \
+                [b for b in bodies if BACKEND in b.nroot and any((callee(t) or '').startswith(HM) or strip_generics(callee(t) or '') in (reaches_lookup | reaches_take) for _, t in b.calls())]
+        if not ctx.need('C13.R3', 'the body of %s that works on the record map' % m, inner):
             continue
         b = inner[0]
         muts = [(bb, t) for bb, t in b.calls() if callee(t) in MAP_MUT]
@@ -426,33 +477,41 @@ def r3_memory(ctx):
                    % (callee(t).split('::')[-1], '' if not bad else ': blocks %s do (a failed call leaves a partial update behind)' % bad))
         if m in ('create', 'change_id'):
             ins = [bb for bb, t in b.calls() if callee(t) == 'std::collections::hash::map::HashMap::insert']
-            fresh = [bb for bb, t in b.calls() if callee(t) == 'pavex_session_memory_store::InMemorySessionStore::get_mut_if_fresh']
-            dele = [bb for bb, t in b.calls() if callee(t) == 'pavex_session_memory_store::InMemorySessionStore::_delete']
+            fresh = [bb for bb, t in b.calls() if strip_generics(callee(t) or '') in reaches_lookup and BACKEND not in (callee(t) or '')]
+            dele = [bb for bb, t in b.calls() if strip_generics(callee(t) or '') in reaches_take and BACKEND not in (callee(t) or '')]
             for ib in ins:
                 ok = bool(fresh) and b.dominates(fresh[0], ib) and (m != 'change_id' or (bool(dele) and b.dominates(dele[0], ib)))
                 ctx.ob('C13.R3', 'insert-after-guards|%s' % m, ok, b.loc(ib),
                        'insert is dominated by the freshness test of the target id%s' % (' and by _delete(old)' if m == 'change_id' else ''))
-            if m == 'create' and fresh and ins:
-                # the freshness test's Ok outcome must lead to the DuplicateId error, not to the insert
-                fb_, ft = fresh[0], b.term(fresh[0])
-                der = forward_derived(b, {ft['dest']['l']}, through_calls=True)
-                okk = False
-                for wb in b.live_blocks():
-                    w = b.term(wb)
-                    if w and w['k'] == 'switch' and op_place(w['d']) and op_place(w['d'])['l'] in der and 'enum' not in w:
-                        true_t = w['else']
-                        false_t = [tg for v, tg in w['ts'] if v == '0']
-                        # is_ok() true => must not reach insert
-                        if any(callee(t2) == 'core::result::Result::is_ok' for _, t2 in b.calls()):
-                            okk = not any(i in b.reachable(true_t, avoid=false_t) for i in ins)
-                ctx.ob('C13.R3', 'create-never-overwrites-live', okk, b.loc(fb_, ft),
-                       'when get_mut_if_fresh(id).is_ok() the insert is unreachable (a live record is never overwritten)')
+            if m == 'create' and ins:
+                # case evaluation: with a live record under the id, create() returns an error and never reaches the insert; without one
+                # (absent, or present but expired) it inserts and succeeds
+                class _CreateSem(_AccessorSem):
+                    def descend_into(self, short):
+                        return BACKEND not in short
+
+                    def domain_call(self, interp, path, body, bb, term, short):
+                        if short == HM + 'insert':
+                            path.env['inserted'] = True
+                        return super().domain_call(interp, path, body, bb, term, short)
+                got = {}
+                for name_, (pr, st_) in (('live', (True, False)), ('expired', (True, True)), ('absent', (False, False))):
+                    try:
+                        outs = TagInterp(_CreateSem(ctx.fb, pr, st_), max_paths=4000).run(b, {})
+                    except RuntimeError:
+                        outs = []
+                    got[name_] = sorted({('%s%s' % (str(p_.tags.get((b.id, 0))).replace('res:', ''), '+insert' if p_.env.get('inserted') else '')) if oc == 'return' else 'panic'
+                                         for oc, p_, *_ in outs})
+                want = {'live': ['Err'], 'expired': ['Ok+insert'], 'absent': ['Ok+insert']}
+                ctx.ob('C13.R3', 'create-never-overwrites-live', got == want, b.loc(ins[0]),
+                       'create() evaluated with the id live / expired / absent: %s (a live record is never overwritten: %s)' % (got, want))
     # (d) comparison direction
     dirs = {}
-    for name, b in (('is_stale', ctx.fb.body(MS, 'pavex_session_memory_store::StoreRecord::is_stale')),):
-        if ctx.need('C13.R3', 'StoreRecord::is_stale', b) is None:
-            continue
-        dirs[name] = _deadline_cmp(b)
+    for fn_ in sorted(cmp_fns):
+        for b in ctx.fb.bodies_of_item(MS, fn_):
+            c = _deadline_cmp(b)
+            if c:
+                dirs['is_stale'] = c if dirs.get('is_stale') in (None, c) else ('mixed', 'mixed')
     de = impl_method_bodies(ctx, MS, 'pavex_session_memory_store::InMemorySessionStore', 'delete_expired')
     for b in de:
         c = _deadline_cmp(b)
